@@ -341,6 +341,8 @@ func propC10(c *Ctx) int {
 	c.RunJob(Job{Name: "paste P=1 S=1 F=1", Pkg: "core", Fn: "HPaste", Params: map[string]int64{"np": 1, "ns": 1, "nf": 1, "subset": sub},
 		Stubs: []string{"loc", "rune"}, PanicIsViolation: true, MaxPaths: 20000000, Timeout: 3 * time.Hour, ReplayCap: 50000, MustReach: []string{"same-tree"}})
 	// text level: call site x block x following directive x indentation x position of the MACRO definition, catalog digests compared
+	c.RunJob(Job{Name: "macro graphs with two calls per macro", Pkg: "core", Fn: "HMacroDag", Stubs: []string{"loc", "rune"}, PanicIsViolation: true, MaxPaths: 200000, Timeout: time.Hour,
+		MaxSteps: 3000000, MaxDepth: 400, MustReach: []string{"dag-accepted", "cycle"}})
 	c.RunJob(Job{Name: "one macro used twice", Pkg: "core", Fn: "HPasteTwice", Stubs: []string{"rune"}, PanicIsViolation: true, MaxPaths: 200000, Timeout: time.Hour,
 		MaxSteps: 8000000, MaxDepth: 1000, MustReach: []string{"same-catalog"}})
 	c.RunJob(Job{Name: "paste text-level", Pkg: "core", Fn: "HPasteText", Stubs: []string{"loc", "rune"}, PanicIsViolation: true, MaxPaths: 200000, Timeout: time.Hour,
@@ -350,7 +352,9 @@ func propC10(c *Ctx) int {
 			Stubs: []string{"loc", "rune"}, PanicIsViolation: true, MaxPaths: 2000000, Timeout: time.Hour, MaxSteps: 3000000, MaxDepth: 400, MustReach: []string{"expanded"}})
 	}
 	return c.Finish("model_checking", []string{
-		"text level (HPasteText): 5 call sites x 9 blocks x 4 following directives x 2 indentations x MACRO defined before/after use (all symbolic, 720 combinations): the document with the block in place and the document with MACRO/PASTE must both be accepted with equal catalog digests (entities, order, names, annotations, schema text) or rejected with the same message class",
+		"macro graphs (HMacroDag): macros a, b, c each calling up to two macros (targets symbolic over {a, b, c, none}: diamonds, the same macro called twice, cycles of any shape): rejected with the recursion error exactly when a macro reaches itself",
+		"one macro used twice (HPasteTwice): two URLs with a path parameter / two methods / two responses, each calling the same macro (bodies incl. a method with a Path directive), optional directive between the calls, MACRO defined before JSIGHT / after it / at the end: accepted, same deep digest as the bodies written in place, closure",
+		"text level (HPasteText): 5 call sites x 11 blocks (incl. resources with path parameters) x 4 following directives x 2 indentations x MACRO defined before JSIGHT / right after it / at the end (all symbolic): the document with the block in place and the document with MACRO/PASTE must both be accepted with equal catalog digests (entities, order, names, annotations, schema text) or rejected with the same message class",
 		"relational harness: prefix P (<=1 directive) and body S (<=1 quick / 2 thorough directives), kinds/flags symbolic over all 31 kinds; run 1 scans P S in place, run 2 scans MACRO @m ( S ) and P PASTE @m; after collectMacro/checkMacroForRecursion/processPaste the trees must be equal and contain no MACRO/PASTE",
 		"assumed: the rewritten document is itself accepted by the scan (S legal in a MACRO body, PASTE admitted at the call site)",
 		"macro call graphs: <=3 macros with symbolic PASTE targets (defined / undefined / none): cycles of any length => recursion error, undefined => macro-not-found, acyclic => accepted",
@@ -492,10 +496,15 @@ func propC09(c *Ctx) int {
 				j.Name, j.Params = fmt.Sprintf("split doc#%d span=%d depth=2", doc, span), map[string]int64{"doc": doc, "span": span, "depth": 2}
 				c.RunJob(j)
 			}
+			if span >= 2 && (thorough || span == 2) {
+				j := base
+				j.Name, j.Params = fmt.Sprintf("split doc#%d span=%d two directories", doc, span), map[string]int64{"doc": doc, "span": span, "depth": 1, "dirs": 1}
+				c.RunJob(j)
+			}
 		}
 	}
 	return c.Finish("model_checking", []string{
-		fmt.Sprintf("relational: 5 skeleton projects (3 accepted, 2 rule-rejected) and 2 documents rejected while a macro body is expanded at its PASTE (the MACRO may end up in the included file) vs the same project with the run of 1..%d consecutive directive blocks starting at a symbolic directive boundary moved into piece.jst and replaced by INCLUDE (depth 2: the piece is cut once more into inner.jst); symbolic: cut position, LF/CRLF after INCLUDE, tail of the included file (as is / no final line end / extra blank line / comment line where trivia is legal)", maxSpan),
+		fmt.Sprintf("relational: 5 skeleton projects (3 accepted, 2 rule-rejected) and 2 documents rejected while a macro body is expanded at its PASTE (the MACRO may end up in the included file) vs the same project with the run of 1..%d consecutive directive blocks starting at a symbolic directive boundary moved into piece.jst and replaced by INCLUDE (depth 2: the piece is cut once more into inner.jst; two directories: the run is cut into inner.jst next to the root and sub/inner.jst included from sub/wrap.jst — two different files written with the same name); symbolic: cut position, LF/CRLF after INCLUDE, tail of the included file (as is / no final line end / extra blank line / comment line where trivia is legal)", maxSpan),
 		"oracle: equal catalog digest (every entity, order, names, annotations, descriptions, schema text, emitter-level content) or the same error MESSAGE (whole text), located in the file that now holds the directive at the corresponding index",
 		"pieces are cut at directive boundaries only (not inside a directive); JSIGHT stays in the root file; file system = virtual",
 		contractLoc, contractRune,
@@ -553,6 +562,12 @@ func propC05(c *Ctx) int {
 	{
 		j := base
 		j.Quiet = false
+		j.Name, j.Fn, j.MustReach = "projects without a directive", "HClosureNoDirective", []string{"rejected"}
+		c.RunJob(j)
+	}
+	{
+		j := base
+		j.Quiet = false
 		j.Name, j.Fn, j.MustReach = "used names model", "HUsedModel", []string{"closed", "undefined-rejected"}
 		c.RunJob(j)
 	}
@@ -590,7 +605,7 @@ func propC05(c *Ctx) int {
 	return c.Finish("model_checking", []string{
 		"closure invariants (harness/core/zz_verif_c05.go vCheckClosure) asserted on the catalog structs of every ACCEPTED document: interaction key == id == '<protocol> <method> <path>'; every tag named by an interaction exists and lists it exactly once under its protocol, and vice versa; pathVariables present exactly when the path has {parameters}, and its schema has exactly those parameters as properties; response codes 1xx-5xx with a body; JSIGHT version 0.3; every name in the usedUserTypes / usedUserEnums lists the JSON emitter builds for each schema (types, path variables, query, request/response headers and bodies, params, result) is a defined type / enum and occurs once",
 		"used names model (HUsedModel): a response body assembled from a symbolic subset of 10 reference forms (property of a type, array of a type, or-rule, enum rule, type union, allOf on a nested object and on the root, key shortcut, type rule, additionalProperties), one symbolically chosen form naming an undefined type/enum: rejected exactly then; otherwise closure, and usedUserTypes = the types the selected forms name (observation, not asserted: the emitter never fills usedUserEnums — no Add call exists in the repository; no property demands it)",
-		"document families: path-variable model (Path directives on URL level, method level, on a longer path sharing the prefix, in both orders — all symbolic); TAG/Tags model with symbolic tag choices (up to three names incl. the same tag twice, adjacent or not, and an undeclared tag, URL-level and method-level Tags, HTTP and JSON-RPC); representative documents with a 2-byte symbolic substitution hole (sampled cuts in the quick tier); INCLUDE-split and MACRO/PASTE rewrites of the skeletons",
+		"document families: projects in which no directive is left (empty, blanks, comments, MACRO definitions only, an INCLUDE of a comment file); path-variable model (Path directives on URL level, method level, on a longer path sharing the prefix, in both orders — all symbolic); TAG/Tags model with symbolic tag choices (up to three names incl. the same tag twice, adjacent or not, and an undeclared tag, URL-level and method-level Tags, HTTP and JSON-RPC); representative documents with a 2-byte symbolic substitution hole (sampled cuts in the quick tier); INCLUDE-split and MACRO/PASTE rewrites of the skeletons",
 		"outside: the JSON rendering itself (encoding/json)",
 		contractLoc, contractRune,
 	}, map[string]interface{}{})
